@@ -163,6 +163,16 @@ func c10CliCases(cx *ctx) {
 					if o.exit == 0 && !(lone && ans == "right") {
 						oracle = "the command line tool decrypted a file it must refuse (" + hd.name + ", passphrase " + ans + ")"
 					}
+					hasScrypt := false
+					for _, s := range stanzas {
+						if s.Type == "scrypt" {
+							hasScrypt = true
+						}
+					}
+					if hasScrypt && !lone && res == "incorrect" {
+						// "rejects" is a hard error: answering "incorrect identity" lets age.Decrypt go on to the next identity
+						oracle = "a header with a passphrase stanza among others was answered with \"no identity matched\" (incorrect identity: the next identity would be tried) instead of being rejected (" + hd.name + ")"
+					}
 					if prompted && !lone {
 						oracle = "the passphrase was asked for although the header is not a lone passphrase stanza (" + hd.name + ")"
 					}
